@@ -80,6 +80,10 @@ func (m *natsConnectionMonitor) Stop() error {
 
 	m.status.Store(ConnectionStatusDisconnected)
 
+	// A stopped monitor can be started again: an election with connection
+	// monitoring is restarted (Stop, then Start) like any other.
+	m.ctx, m.cancel = nil, nil
+
 	return nil
 }
 
